@@ -330,7 +330,8 @@ pub fn snapshot(sys: &Sys, b: &Bounds, history: &[Step]) -> Snap {
             let _ = write!(k, "A[gone exited={} dead={}]", verif::accept_exited(), w.accept_dead.get());
         }
     }
-    let _ = write!(k, "R{:?}E{}X{:?}P{:?}I{}", registered, epoll_ready as u8, w.edges(), uds_path_exists, verif::injected_pending());
+    let injected_kinds: Vec<String> = w.log.borrow().iter().filter_map(|(_, _, r)| if let Rec::Injected { listener, kind } = r { Some(format!("{listener}:{:?}", kind)) } else { None }).collect();
+    let _ = write!(k, "R{:?}E{}X{:?}P{:?}I{}{:?}", registered, epoll_ready as u8, w.edges(), uds_path_exists, verif::injected_pending(), injected_kinds);
     for ws in &workers {
         let _ = write!(k, "W{}[i{} l{} f{} fin{} td{}", ws.slot, ws.idx, ws.local_present as u8, ws.flag as u8, ws.finished as u8, ws.torn_down as u8);
         if let Some(v) = &ws.view {
@@ -615,7 +616,7 @@ pub fn bfs(spec: &dyn Spec, threads: usize, seed: u64, wall_cap: Duration) -> (S
                     }
                     stats.longest = Some(o.history.clone());
                     // determinism guard: a sample of new states is replayed and must give the same key
-                    if (o.snap.key.wrapping_add(seed)) % 97 == 0 {
+                    if (o.snap.key.wrapping_add(seed)) % 23 == 0 {
                         let again = run(&cfg, &b, &o.history);
                         stats.replay_checks += 1;
                         stats.executions += 1;
